@@ -65,6 +65,51 @@ func durCases(key string, get func(l *config.LibDefaults) time.Duration) []kvCas
 		d := s.d
 		out = append(out, kvCase{key, s.t, "duration-" + durShape(s.t), func(l *config.LibDefaults) bool { return get(l) == d }})
 	}
+	// the documented formats swept over boundary values of every field: N seconds; h:m and h:m:s (hours are not
+	// limited to two digits or to 59; minutes and seconds with and without a leading zero); NdNhNmNs with every
+	// non-empty subset of the four units
+	add := func(t string, d time.Duration, shape string) {
+		out = append(out, kvCase{key, t, "duration-" + shape, func(l *config.LibDefaults) bool { return get(l) == d }})
+	}
+	for _, n := range []int{1, 9, 10, 59, 60, 61, 99, 100, 299, 3599, 3600, 3601, 86399, 604800, 2147483} {
+		add(fmt.Sprint(n), time.Duration(n)*time.Second, "seconds-grid")
+	}
+	hours := []int{0, 1, 9, 10, 23, 24, 25, 59, 60, 61, 99, 100, 168, 999}
+	for _, h := range hours {
+		for _, m := range []int{0, 1, 9, 30, 59} {
+			if h == 0 && m == 0 {
+				continue
+			}
+			for _, mf := range []string{"%d", "%02d"} {
+				add(fmt.Sprintf("%d:"+mf, h, m), time.Duration(h)*time.Hour+time.Duration(m)*time.Minute, "colon-1-grid")
+				for _, sec := range []int{0, 7, 59} {
+					add(fmt.Sprintf("%d:"+mf+":"+mf, h, m, sec), time.Duration(h)*time.Hour+time.Duration(m)*time.Minute+time.Duration(sec)*time.Second, "colon-2-grid")
+				}
+			}
+		}
+	}
+	units := []struct {
+		u string
+		d time.Duration
+	}{{"d", 24 * time.Hour}, {"h", time.Hour}, {"m", time.Minute}, {"s", time.Second}}
+	vals := []int{1, 10, 60, 100}
+	for mask := 1; mask < 16; mask++ {
+		var rec func(i int, t string, d time.Duration)
+		rec = func(i int, t string, d time.Duration) {
+			if i == 4 {
+				add(t, d, "units-grid")
+				return
+			}
+			if mask&(1<<uint(i)) == 0 {
+				rec(i+1, t, d)
+				return
+			}
+			for _, v := range vals {
+				rec(i+1, t+fmt.Sprint(v)+units[i].u, d+time.Duration(v)*units[i].d)
+			}
+		}
+		rec(0, "", 0)
+	}
 	return out
 }
 
